@@ -387,13 +387,13 @@ func oracleC03(qi int) func(x *schedX) {
 		x.note("final q%d successes=%d sum=%d payments=%d state=%s", qi, x.mintOK[qi], x.mintSum[qi], pay, got.State)
 		if x.mintOK[qi] > pay {
 			sort.Strings(x.mintWho)
-			x.viol("C03", x.scn+"/issued-more-often-than-paid/"+strings.Join(x.mintWho, "+"), "q%d (amount %d) was issued %d× (total %d) for %d payment(s): %s", qi, q.Q.Amount, x.mintOK[qi], x.mintSum[qi], pay, strings.Join(x.obs, "; "))
+			x.viol("C03,C02", x.scn+"/issued-more-often-than-paid/"+strings.Join(x.mintWho, "+"), "q%d (amount %d) was issued %d× (total %d) for %d payment(s): %s", qi, q.Q.Amount, x.mintOK[qi], x.mintSum[qi], pay, strings.Join(x.obs, "; "))
 		}
 		if x.mintSum[qi] > q.Q.Amount*uint64(pay) {
-			x.viol("C03", x.scn+"/issued-over-amount/"+strings.Join(x.mintWho, "+"), "q%d: signatures worth %d for amount %d × %d payment(s)", qi, x.mintSum[qi], q.Q.Amount, pay)
+			x.viol("C03,C02", x.scn+"/issued-over-amount/"+strings.Join(x.mintWho, "+"), "q%d: signatures worth %d for amount %d × %d payment(s)", qi, x.mintSum[qi], q.Q.Amount, pay)
 		}
 		if x.mintEarly[qi] {
-			x.viol("C03", x.scn+"/issued-before-settlement", "q%d: MintTokens succeeded while the invoice was not settled: %s", qi, strings.Join(x.obs, "; "))
+			x.viol("C03,C02", x.scn+"/issued-before-settlement", "q%d: MintTokens succeeded while the invoice was not settled: %s", qi, strings.Join(x.obs, "; "))
 		}
 		if x.mintOK[qi] >= 1 && got.State != nut04.Issued {
 			x.viol("C03", x.scn+"/final-state-not-issued/"+got.State.String(), "q%d was issued but ends in state %s: %s", qi, got.State, strings.Join(x.obs, "; "))
